@@ -178,6 +178,7 @@ fn odd_shapes(src: &str) -> Vec<&'static str> {
                         | Node::Switch(_)
                         | Node::Try(_)
                         | Node::If(_)
+                        | Node::Function(_)
                 ) =>
             {
                 out.push("block-operand")
@@ -200,7 +201,7 @@ fn odd_shapes(src: &str) -> Vec<&'static str> {
                 continue;
             }
             let mut k = i + 1;
-            while k < toks.len() && toks[k].is_whitespace() {
+            while k < toks.len() && toks[k].is_whitespace_including_newline() {
                 k += 1;
             }
             let odd = match toks.get(k) {
